@@ -117,12 +117,16 @@ def op_cms_stream(job):
         return [int(cms_hash(x, cms.hash_seeds[i], cms.width)) for i in range(cms.depth)]
     unseen = job['unseen']
     for x, w in job['stream']:
-        x = tuple(x) if isinstance(x, list) else x
-        ids.setdefault(x, len(ids) + 1)
-        cms.add(x, w) if job.get('via') != 'batch' else cms.batch_add([x], w)
+        lst = list(x) if job.get('via') == 'batch' else [x]
+        for y in lst:
+            ids.setdefault(y, len(ids) + 1)
+        if job.get('via') == 'add':
+            cms.add(x, w)
+        else:
+            cms.batch_add(lst, w)
         qs = [[i, int(cms.query(y))] for y, i in ids.items()]
         qs.append([0, int(cms.query(unseen))])
-        ev.append({'e': 'update', 'item': ids[x], 'w': int(w), 'queries': qs, 'rowsums': [int(v) for v in cms.get_matrix().sum(axis=1)]})
+        ev.append({'e': 'update', 'items': [ids[y] for y in lst], 'w': int(w), 'queries': qs, 'rowsums': [int(v) for v in cms.get_matrix().sum(axis=1)]})
     return ev
 
 
